@@ -143,6 +143,19 @@ def o_flags(src, sub, table):
         b = attempt(lambda: c.build(sp))
         if b != ('ok', s.build(table[labels[0]] | table[labels[-1]])):
             return 'build(%r) gave %r' % (sp, b)
+    # every pair and triple of labels, repeated labels included: the spelling 'p|q' means the union of the masks, as the dict spelling does
+    import itertools
+    for combo in list(itertools.product(labels, repeat=2)) + list(itertools.product(labels[:3], repeat=3)):
+        want = 0
+        for l in combo:
+            want |= table[l]
+        sp = '|'.join(combo)
+        b = attempt(lambda: c.build(sp))
+        if b != ('ok', s.build(want)):
+            return 'build(%r) gave %r, the union of the masks is %#x' % (sp, b, want)
+        b2 = attempt(lambda: c.build({l: True for l in combo}))
+        if b2 != b:
+            return 'build(%r) gave %r but the dict spelling of the same labels gave %r' % (sp, b, b2)
     for bad in ('nosuch', 'a|nosuch' if 'a' in table else 'x|y', {'nosuch': True}):
         b = attempt(lambda: c.build(bad))
         if b[0] == 'ok':
@@ -269,7 +282,16 @@ def run(tier, seed):
                            ('Select(Struct("b"/Byte, "c"/If(this.b == 1, Error)), Byte)', b'\x01', dict(b=1)),
                            ('GreedyRange(Optional(Sequence(Byte, Error)))', b'\x01\x02', [[1, None]]),
                            ('Optional(GreedyRange(Select(Sequence(Const(b"\\x09"), Byte), Error)))', b'\x01', [None]),
-                           ('Sequence(Select(Const(b"\\x09"), Sequence(Byte, Error)), Byte)', b'\x01\x02', [[1, None], 2])]:
+                           ('Sequence(Select(Const(b"\\x09"), Sequence(Byte, Error)), Byte)', b'\x01\x02', [[1, None], 2]),
+                           # nothing to build (None, a missing or an anonymous member) and the Error sits in a branch or member of an alternative
+                           ('Optional(IfThenElse(True, Error, Byte))', b'\x01', None), ('Optional(Switch(7, {1: Byte}, default=Error))', b'\x01', None),
+                           ('Select(Struct(Error, "x"/Byte), Pass)', b'\x01', None), ('Select(Sequence(Error, Byte), Pass)', b'\x01', None),
+                           ('Select(Byte, IfThenElse(True, Error, Byte), Pass)', b'', None), ('Select(Struct("x"/Byte, Error), Pass)', b'\x01', dict(x=1)),
+                           ('Struct("k"/Byte, "v"/Optional(IfThenElse(this.k == 0, Error, Byte)))', b'\x00', dict(k=0)),
+                           ('Struct("k"/Byte, Optional(Switch(this.k, {1: Byte}, default=Error)))', b'\x09', dict(k=9)),
+                           ('Struct("k"/Byte, "v"/Select(If(this.k == 9, Error), Pass))', b'\x09', dict(k=9)),
+                           ('Sequence("k"/Byte, Optional(Struct(If(this._.k == 9, Error), "x"/Byte)))', b'\x09\x01', [9, None]),
+                           ('FocusedSeq("k", "k"/Byte, Optional(IfThenElse(this.k == 9, Error, Byte)))', b'\x09', 9)]:
         checks.append(('explicit', src, dict(data=data, obj=obj)))
         cases.append(dict(src=src, op='parse', data=data))
         cases.append(dict(src=src, op='build', obj=obj))
